@@ -1,6 +1,9 @@
 package kademlia
 
-import "bytes"
+import (
+	"bytes"
+	"time"
+)
 
 // C19 (distance laws): DistanceCmp agrees with byte-wise comparison of XOR distances.
 
@@ -61,4 +64,162 @@ func VH_C19_distanceOrder() bool {
 		return false
 	}
 	return true
+}
+
+// ---- cache queries: nearest-first enumeration, Closest, ForEachCloser, ForEachMatching
+
+func vMaxEntries() int {
+	if vThorough() {
+		return 3
+	}
+	return 2
+}
+
+func vBuildCache(locus []byte, n int, klen int) (*Cache[byte], [][]byte) {
+	c := NewCache[byte](locus, 8, 0)
+	var keys [][]byte
+	for i := 0; i < n; i++ {
+		k := vBytesN(klen)
+		dup := false
+		for j := range keys {
+			if vEqBytes(keys[j], k) {
+				dup = true
+			}
+		}
+		vAssume(!dup)
+		c.Put(k, byte(i), time.Unix(0, int64(i)+1), time.Time{})
+		keys = append(keys, k)
+	}
+	return c, keys
+}
+
+//verif: unwind=24 cover=max-entries map_perm_max=1 bounds="locus, query key and 0..2 (quick) / 0..3 (thorough) distinct entry keys of 1 byte each, all symbolic: ForEach visits every entry once in non-decreasing XOR distance; Closest is a minimum"
+func VH_C19_forEachNearestFirst() bool {
+	locus := vBytesN(1)
+	n := vInt(0, vMaxEntries())
+	c, keys := vBuildCache(locus, n, 1)
+	x := vBytesN(1)
+	var seen [][]byte
+	c.ForEach(x, func(e Entry[byte]) bool {
+		seen = append(seen, e.Key)
+		return true
+	})
+	if len(seen) != len(keys) {
+		vAssert(false, "foreach-misses-or-repeats-entries")
+		return false
+	}
+	for i := range keys {
+		found := 0
+		for j := range seen {
+			if vEqBytes(seen[j], keys[i]) {
+				found++
+			}
+		}
+		if found != 1 {
+			vAssert(false, "foreach-misses-or-repeats-entries")
+			return false
+		}
+	}
+	for i := 1; i < len(seen); i++ {
+		if DistanceCmp(x, seen[i-1], seen[i]) > 0 {
+			vAssert(false, "foreach-not-in-nondecreasing-distance")
+			return false
+		}
+	}
+	cl := c.Closest(x)
+	if (cl == nil) != (len(keys) == 0) {
+		vAssert(false, "closest-nil-mismatch")
+		return false
+	}
+	for i := range keys {
+		if DistanceCmp(x, keys[i], cl.Key) < 0 {
+			vAssert(false, "closest-is-not-a-minimum")
+			return false
+		}
+	}
+	if n == vMaxEntries() {
+		vCover("max-entries")
+	}
+	return true
+}
+
+//verif: unwind=24 cover=some-closer,none-closer map_perm_max=1 bounds="locus, query key and 0..2 (quick) / 0..3 (thorough) distinct entry keys of 1 byte each: ForEachCloser yields exactly the entries nearer to the key than the locus is"
+func VH_C19_forEachCloserExact() bool {
+	locus := vBytesN(1)
+	n := vInt(0, vMaxEntries())
+	c, keys := vBuildCache(locus, n, 1)
+	x := vBytesN(1)
+	var seen [][]byte
+	c.ForEachCloser(x, func(e Entry[byte]) bool {
+		seen = append(seen, e.Key)
+		return true
+	})
+	want := 0
+	for i := range keys {
+		closer := DistanceCmp(x, keys[i], locus) < 0
+		found := 0
+		for j := range seen {
+			if vEqBytes(seen[j], keys[i]) {
+				found++
+			}
+		}
+		if closer {
+			want++
+			if found != 1 {
+				vAssert(false, "closer-entry-missing")
+				return false
+			}
+		} else if found != 0 {
+			vAssert(false, "not-closer-entry-yielded")
+			return false
+		}
+	}
+	if len(seen) != want {
+		vAssert(false, "closer-entry-repeated")
+		return false
+	}
+	if want > 0 {
+		vCover("some-closer")
+	} else {
+		vCover("none-closer")
+	}
+	return true
+}
+
+//verif: unwind=24 cover=some-match map_perm_max=1 bounds="locus and 0..2 (quick) / 0..3 (thorough) distinct entry keys of 1 byte, prefix 1 byte, nbits 0..8: ForEachMatching yields exactly the entries sharing the first nbits bits with the prefix"
+func VH_C19_forEachMatchingExact() bool {
+	locus := vBytesN(1)
+	n := vInt(0, vMaxEntries())
+	c, keys := vBuildCache(locus, n, 1)
+	prefix := vBytesN(1)
+	nbits := vInt(0, 8)
+	var seen [][]byte
+	c.ForEachMatching(prefix, nbits, func(e Entry[byte]) bool {
+		seen = append(seen, e.Key)
+		return true
+	})
+	want := 0
+	for i := range keys {
+		match := (keys[i][0]^prefix[0])>>(8-uint(nbits)) == 0
+		found := 0
+		for j := range seen {
+			if vEqBytes(seen[j], keys[i]) {
+				found++
+			}
+		}
+		if match {
+			want++
+			if found != 1 {
+				vAssert(false, "matching-entry-missing")
+				return false
+			}
+		} else if found != 0 {
+			vAssert(false, "non-matching-entry-yielded")
+			return false
+		}
+	}
+	if want > 0 {
+		vCover("some-match")
+	}
+	return len(seen) == want
 }
